@@ -94,20 +94,14 @@ Example cover_elseif_witness :
   option_map (fun r' : env => r' sX) (nm_body std_fi env2 p_cover_elseif) = Some (Some 5%Q).
 Proof. repeat split; vm_compute; reflexivity. Qed.
 
-(* X = MOD(THETA(1), 3)     at THETA(1) = -7, with Fortran's MOD for F_FMOD and the floored modulo
-   for F_MOD (C01/Check.v, Base/Interp.v):  NM-TRAN: X = -1.  Read as Mod(THETA_1, 3) = 2. *)
+(* FIXED (81bb571), kept as a regression example of the repaired behaviour:
+   X = MOD(THETA(1), 3) at THETA(1) = -7.  NM-TRAN: X = -1.  It used to be read as sympy.Mod (= 2);
+   the reading now keeps MOD's Fortran meaning (F_FMOD, interpreted in C01/Check.v). *)
 Definition p_mod : body := body_of_list [NAssign sX (Fn2 F_FMOD (Sym th1) (Num 3))].
 
-Theorem read_code_refuted_mod :
-  exists p r v, g_no_mod p = false /\ guard_code p = true /\ fresh_env r p /\
-    ~ (forall r', nm_body c01_fi r p = Some r' -> exec c01_fi std_ode r (read_code p) v = r' v).
-Proof.
-  exists p_mod, (env_of [(th1, (-7 # 1)%Q)]), sX. repeat split; try (vm_compute; reflexivity).
-  - fresh_env_tac.
-  - intro H. specialize (H _ eq_refl). vm_compute in H. discriminate.
-Qed.
-
-Example mod_values :
-  exec c01_fi std_ode (env_of [(th1, (-7 # 1)%Q)]) (read_code p_mod) sX = Some 2%Q /\
-  option_map (fun r' : env => r' sX) (nm_body c01_fi (env_of [(th1, (-7 # 1)%Q)]) p_mod) = Some (Some (-1 # 1)%Q).
-Proof. split; vm_compute; reflexivity. Qed.
+Example mod_fixed :
+  exec c01_fi std_ode (env_of [(th1, (-7 # 1)%Q)]) (read_code p_mod) sX = Some (-1 # 1)%Q /\
+  option_map (fun r' : env => r' sX) (nm_body c01_fi (env_of [(th1, (-7 # 1)%Q)]) p_mod) = Some (Some (-1 # 1)%Q) /\
+  (* the floored modulo the old code produced *)
+  std_fi2 F_MOD (-7 # 1)%Q 3%Q = Some 2%Q.
+Proof. repeat split; vm_compute; reflexivity. Qed.
